@@ -1,7 +1,7 @@
 """Correspondence engines used by /verif/check."""
 import os, re, subprocess, hashlib, json, glob, time, concurrent.futures
 
-V = '/verif'
+V = os.environ.get('VERIF_HOME', '/verif')
 LEAN = V + '/lean'
 SEQDRV = LEAN + '/.lake/build/bin/seqdrv'
 OTTERDRV = LEAN + '/.lake/build/bin/otterdrv'
